@@ -362,6 +362,25 @@ def judge_keep_going(ops, outcomes, first_illegal, is_close, who):
     return ""
 
 
+CALLER = {"in_handler": False}
+
+
+def caller_context(fn):
+    """The code that calls the generated classes may itself be recovery code: when CALLER['in_handler'] is set the whole
+    history runs inside an `except` block of the caller (an exception that was caught is being handled, sys.exc_info() is
+    set), as a retry or fallback path would."""
+    def wrapped(*a, **k):
+        if not CALLER["in_handler"]:
+            return fn(*a, **k)
+        try:
+            raise LookupError("the caller is recovering from something unrelated")
+        except LookupError:
+            return fn(*a, **k)
+    wrapped.__name__ = fn.__name__
+    return wrapped
+
+
+@caller_context
 def run_py_keep_going(model, proto, api, pyvals, data, ops, fmt="binary"):
     """Executes every op, whatever the earlier ones did.  Returns [True (returned) | False (raised)]."""
     out = []
@@ -529,6 +548,7 @@ def legal_py_reader(rng, streams):
 # Execution
 # ------------------------------------------------------------------------------------------
 
+@caller_context
 def run_py_writer(model, proto, pyvals, ops, fmt="binary"):
     """Returns index of the first op that raised (None if none) and the exception."""
     sink = P.SimSink()
@@ -554,6 +574,7 @@ class Poison:
     """A value no serializer can write: the generated writer's implementation call raises on it."""
 
 
+@caller_context
 def run_py_writer_with_failed_call(model, proto, pyvals, ops, fmt="binary"):
     """ops as for run_py_writer plus ["WP", k] (write step k with a value that makes the *implementation* raise) and
     ["W?", k] (a write that may be refused).  Returns (status, detail, acknowledged [(k, n_items or None)], bytes):
@@ -587,6 +608,7 @@ def run_py_writer_with_failed_call(model, proto, pyvals, ops, fmt="binary"):
     return "closed", "", acked, out
 
 
+@caller_context
 def run_py_reader(model, proto, data, ops, fmt="binary", skip_completed_check=False):
     try:
         src = io.BytesIO(data) if fmt == "binary" else io.StringIO(data.decode("utf-8"))
@@ -657,7 +679,8 @@ def judge_verdicts(verdicts, expect, calls, ops, who):
 
 def doc(model, proto, ctx, api, ops, counts, detail):
     return {"kind": "c07", "pkg": sw.pack_pkg(model.pkg), "files": M.render_tree(model.pkg, ""), "protocol": proto.name, "api": api, "ops": ops,
-            "counts": counts, "detail": detail[:500], "seed": ctx["seed"], "model_index": ctx["i"]}
+            "counts": counts, "detail": detail[:500], "seed": ctx["seed"], "model_index": ctx["i"],
+            "caller_in_handler": bool(CALLER["in_handler"]) and api.startswith("python")}
 
 
 def model_task(task, ybin, root):
@@ -689,6 +712,8 @@ def model_task(task, ybin, root):
             # ---- python writer / reader
             for h in range(H):
                 hr = pr.fork("pw", h)
+                CALLER["in_handler"] = hr.fork("caller").chance(0.3)
+                stats["py_histories_run_inside_an_exception_handler"] = stats.get("py_histories_run_inside_an_exception_handler", 0) + (1 if CALLER["in_handler"] else 0)
                 if h % 2 == 1:
                     ops, mk = until_close(guided(hr, draw_py_writer(streams), lambda o: py_writer_model(streams, o), lambda o: o[0] == "C", streams)), "guided"
                 else:
@@ -727,6 +752,8 @@ def model_task(task, ybin, root):
             plain = [k for k, st in enumerate(streams) if not st]
             for h in range((3 if quick else 10) if plain else 0):
                 hr = pr.fork("failcall", h)
+                CALLER["in_handler"] = hr.fork("caller").chance(0.3)
+                stats["py_histories_run_inside_an_exception_handler"] = stats.get("py_histories_run_inside_an_exception_handler", 0) + (1 if CALLER["in_handler"] else 0)
                 k = hr.choice(plain)
                 ops = []
                 for j, st in enumerate(streams):
@@ -762,6 +789,8 @@ def model_task(task, ybin, root):
             # steps missing must still raise
             for h in range(4 if quick else 12):
                 hr = pr.fork("keepgoing", h)
+                CALLER["in_handler"] = hr.fork("caller").chance(0.3)
+                stats["py_histories_run_inside_an_exception_handler"] = stats.get("py_histories_run_inside_an_exception_handler", 0) + (1 if CALLER["in_handler"] else 0)
                 kfmt = "ndjson" if hr.chance(0.3) else "binary"
                 ops = guided_keep_going(hr, draw_py_writer(streams), lambda o: py_writer_model(streams, o), lambda o: o[0] == "C", streams)
                 outc = run_py_keep_going(model, proto, "writer", pyvals, None, ops, kfmt)
@@ -780,6 +809,8 @@ def model_task(task, ybin, root):
             # reader on an input that ends early: some call must raise
             for h in range(2 if quick else 8):
                 hr = pr.fork("cut", h)
+                CALLER["in_handler"] = hr.fork("caller").chance(0.3)
+                stats["py_histories_run_inside_an_exception_handler"] = stats.get("py_histories_run_inside_an_exception_handler", 0) + (1 if CALLER["in_handler"] else 0)
                 hdr = len(data) - len(codec.encode_stream(proto, ns, "", vals)) + 10   # start of the values region
                 if hdr >= len(data):
                     continue
@@ -905,6 +936,7 @@ def model_task(task, ybin, root):
 
 
 def replay_doc(d, ybin, root):
+    CALLER["in_handler"] = bool(d.get("caller_in_handler"))
     pkg = sw.unpack_pkg(d["pkg"])
     api = d["api"]
     want_cpp = api.startswith("cpp")
@@ -995,7 +1027,7 @@ def main():
                assumptions=["a C++ stream step is left when its end has been observed: a single read returned false or a batch read came back short of its capacity",
                             "python: every step needs at least one write call; a stream's iterable must be drained before the next read; close() ends a trailing stream"],
                replay_fn=replay_doc, quick_budget=140,
-               fault_keys=("py_reader_early_eof", "py_writer_failed_impl_call", "py_history_continued_after_rejection", "cpp_history_continued_after_rejection", "cpp_histories_with_failing_implementation_calls", "implementation_call_failures_injected", "cpp_reader_early_eof", "mut_swap", "mut_drop", "mut_dup", "mut_retarget", "mut_early_close", "mut_insert", "mut_back", "mut_guided", "mut_none"))
+               fault_keys=("py_reader_early_eof", "py_writer_failed_impl_call", "py_history_continued_after_rejection", "py_histories_run_inside_an_exception_handler", "cpp_history_continued_after_rejection", "cpp_histories_with_failing_implementation_calls", "implementation_call_failures_injected", "cpp_reader_early_eof", "mut_swap", "mut_drop", "mut_dup", "mut_retarget", "mut_early_close", "mut_insert", "mut_back", "mut_guided", "mut_none"))
 
 
 if __name__ == "__main__":
